@@ -3,6 +3,7 @@ model (never by generated reflection tables)."""
 import base64
 import datetime
 import math
+import re
 from collections import OrderedDict
 
 from ..gen.values import SV, UV
@@ -38,7 +39,7 @@ def encode_prim(t, av):
     if t.name == 'Bytes':
         return base64.b64encode(bytes(av)).decode('ascii')
     if t.name == 'Timestamp':
-        return av.strftime(t.args['format'])
+        return ts_text(av, t.args['format'])
     if t.name in PRIM_FLOATS and isinstance(av, int) and not isinstance(av, bool):
         return float(av)
     return av
@@ -197,7 +198,7 @@ def classify(m, t, x, strict):
             return ACCEPT if k == 'bool' else REJECT
         if n in PRIM_INTS:
             if k == 'bool':
-                return UNSPEC
+                return REJECT       # a JSON boolean is not a JSON number
             if k != 'number':
                 return REJECT
             if isinstance(x, float):
@@ -208,7 +209,7 @@ def classify(m, t, x, strict):
             return ACCEPT if t.args.get('min_value', lo) <= x <= t.args.get('max_value', hi) else REJECT
         if n in PRIM_FLOATS:
             if k == 'bool':
-                return UNSPEC
+                return REJECT
             if k != 'number':
                 return REJECT
             try:
@@ -242,7 +243,7 @@ def classify(m, t, x, strict):
                 raw = base64.b64decode(x.encode('ascii'), validate=True)
                 return ACCEPT if base64.b64encode(raw).decode('ascii') == x else UNSPEC
             except Exception:
-                return UNSPEC if x.isascii() else REJECT   # lax base64 is not specified; non-ASCII cannot be base64
+                return REJECT      # not base64 at all (canonical form is only required for ACCEPT)
         if n == 'Timestamp':
             if k != 'string':
                 return REJECT
@@ -252,7 +253,7 @@ def classify(m, t, x, strict):
                 return REJECT
             if dt.tzinfo is not None and dt.utcoffset().total_seconds() != 0:
                 return UNSPEC      # only UTC values are documented as valid
-            return ACCEPT if dt.strftime(t.args['format']) == x else UNSPEC
+            return ACCEPT if ts_text(dt, t.args["format"]) == x else UNSPEC
         raise AssertionError(t)
     if t.kind == 'list':
         if kind(x) != 'array':
@@ -312,9 +313,8 @@ def classify_fields(m, d, x, strict):
                 out.append(REJECT)
                 continue
             out.append(classify(m, f.type, v, strict))
-        elif k.startswith('.tag'):
-            if k != '.tag':
-                out.append(UNSPEC)
+        elif k == '.tag':
+            pass        # tolerated: struct members of unions are flattened next to it
         else:
             out.append(REJECT if strict else ACCEPT)
     for name, f in fields.items():
@@ -385,6 +385,13 @@ def classify_union(m, d, x, strict):
     if others:
         return REJECT if (strict or inner == REJECT) else UNSPEC
     return inner
+
+
+def ts_text(dt, fmt):
+    """Text of a timestamp under a strftime format; %Y is four digits (what strptime reads)."""
+    if dt.year < 1000:
+        fmt = re.sub(r'((?:^|[^%])(?:%%)*)%Y', lambda mt: mt.group(1) + '%04d' % dt.year, fmt)
+    return dt.strftime(fmt)
 
 
 # --------------------------------------------------------------- permissions / redaction
